@@ -85,6 +85,8 @@ class Fragment(AbstractApplication):
         pyld_blk = ctr.block_num(Bundle.BLOCK_NUM_PAYLOAD)
         payload_data = pyld_blk.getfieldval('btsd')
         pyld_blk.delfieldval('btsd')
+        # a parsed payload would regenerate the data when the block is built
+        pyld_blk.remove_payload()
         payload_size = len(payload_data)
         LOGGER.info('Payload data size %d', payload_size)
         # maximum size of each fragment field
